@@ -282,7 +282,7 @@ func idleDiff(a, b goja.VerifIdleState) string {
 type worker struct {
 	r    *core.Run
 	eng  *engine
-	seen map[string]bool // signatures already confirmed by this worker
+	sigs map[string]string // (part, body, class) -> signature of the minimised case
 }
 
 func (w *worker) engine() *engine {
@@ -307,6 +307,9 @@ type VCase struct {
 	GotRes  string      `json:"got_res"`
 	GotLog  []string    `json:"got_log"`
 	Fault   string      `json:"fault,omitempty"`
+	// the minimised form the signature was built from
+	MinSrc     string `json:"min_body,omitempty"`
+	MinHistory []Step `json:"min_history,omitempty"`
 }
 
 func eqStrings(a, b []string) bool {
@@ -323,7 +326,7 @@ func eqStrings(a, b []string) bool {
 
 // runGenHistory executes one maximal history on the engine in lock-step with the model's expectations.
 // It returns the number of transitions executed and a non-nil violation case on the first divergence.
-func (w *worker) runGenHistory(c Case, src string, hist []Step, cold bool) (n int, vc *VCase, sig string) {
+func (w *worker) runGenHistory(c Case, src string, hist []Step, cold bool) (n int, vc *VCase, class string) {
 	if cold {
 		w.discard()
 	}
@@ -337,29 +340,29 @@ func (w *worker) runGenHistory(c Case, src string, hist []Step, cold bool) (n in
 	}
 	if err := e.define(src, false); err != nil {
 		w.discard()
-		return 0, mk(-1, err.Error(), nil, nil), "gen|define|" + errClass(err)
+		return 0, mk(-1, err.Error(), nil, nil), "define failed: " + errClass(err)
 	}
 	self, ft := e.genStart()
 	if ft != nil {
 		w.discard()
-		return 0, mk(-1, "", nil, ft), "gen|start|" + ft.kind + "|" + ft.detail
+		return 0, mk(-1, "", nil, ft), "start failed: " + ft.kind + ": " + ft.detail
 	}
 	for i, st := range hist {
 		res, lg, ft := e.genStep(self, st.Ctx, st.Op, st.V)
 		n++
 		if ft != nil {
 			w.discard()
-			return n, mk(i, res, lg, ft), genSig(c, hist, i, "fault:"+ft.kind+":"+ft.detail)
+			return n, mk(i, res, lg, ft), "fault:" + ft.kind + ":" + ft.detail
 		}
 		if res != st.Res || !eqStrings(lg, st.Log) {
 			// the engine state may be corrupt: do not reuse it
 			w.discard()
-			return n, mk(i, res, lg, nil), genSig(c, hist, i, diffClass(st.Res, res, st.Log, lg))
+			return n, mk(i, res, lg, nil), diffClass(st.Res, res, st.Log, lg)
 		}
 	}
 	if ft := e.idleFault(); ft != nil {
 		w.discard()
-		return n, mk(len(hist)-1, "", nil, ft), genSig(c, hist, len(hist)-1, "fault:"+ft.kind+":"+ft.detail)
+		return n, mk(len(hist)-1, "", nil, ft), "fault:" + ft.kind + ":" + ft.detail
 	}
 	return n, nil, ""
 }
@@ -425,14 +428,6 @@ func logKind(s string) string {
 		return "?"
 	}
 	return h
-}
-
-// genSig builds the signature of a generator-part divergence: the diverging call, the syntactic position
-// of the yield the generator was suspended at when the call arrived (or start / completed), and how the
-// outcome differs. Different breakages of the property therefore get different signatures.
-func genSig(c Case, hist []Step, at int, class string) string {
-	st := hist[at]
-	return fmt.Sprintf("gen|%s|at:%s|%s", gm.OpNames[st.Op], st.At, class)
 }
 
 func bodyClass(name string) string { return strings.TrimSuffix(name, " [captured]") }
@@ -584,10 +579,10 @@ func (w *worker) genCase(c Case, idx int64, histLen int, scheds []schedule) {
 				h[i].Ctx = sc.ctx[i%len(sc.ctx)]
 			}
 			cold := si == 0 && ti == 0 && idx%16 == 0
-			n, vc, sig := w.runGenHistory(c, src, h, cold)
+			n, vc, class := w.runGenHistory(c, src, h, cold)
 			r.Transitions(int64(n))
 			if vc != nil {
-				w.report(sig, vc)
+				w.report(class, vc)
 				continue
 			}
 			r.Traces(1)
@@ -618,27 +613,93 @@ func histResults(h []Step) []string {
 	return parts
 }
 
-// report re-runs the failing case 5 times on fresh engines before recording it.
-func (w *worker) report(sig string, vc *VCase) {
-	if w.seen[sig] {
+// expectGen fills in the model's expectations for one history; ok=false if the model does not support it.
+func expectGen(p *gm.Program, hist []Step) (h []Step, ok bool) {
+	m := gm.NewGenMachine(p)
+	defer m.Close()
+	h = make([]Step, len(hist))
+	for i, st := range hist {
+		at := m.Where()
+		res, lg, err := m.Step(st.Op, float64(st.V))
+		if err != nil {
+			return nil, false
+		}
+		h[i] = Step{Op: st.Op, V: st.V, Ctx: st.Ctx, Res: res, Log: append([]string{}, lg...), At: at}
+	}
+	return h, true
+}
+
+// failsAs runs (p, hist) on a fresh engine against a fresh model and returns the failure class ("" = passes).
+func failsAs(part string, name string, p *gm.Program, hist []Step, batch bool) (class string, out *VCase) {
+	w := &worker{}
+	c := Case{Name: name, Prog: p}
+	switch part {
+	case "gen":
+		h, ok := expectGen(p, hist)
+		if !ok {
+			return "", nil
+		}
+		_, out, class = w.runGenHistory(c, p.JS(false), h, true)
+	case "async":
+		exp, unsup := modelAsync(p, hist, batch)
+		if unsup != "" {
+			return "", nil
+		}
+		_, out, class = w.runAsyncHistory(c, p.JS(true), exp, batch)
+	}
+	if out == nil {
+		return "", nil
+	}
+	return class, out
+}
+
+// signatureOf minimises the failing case and builds its signature.
+func signatureOf(vc *VCase, class string) (sig string, minProg *gm.Program, minHist []Step) {
+	hist := vc.History
+	if vc.Part == "gen" && vc.At >= 0 && vc.At+1 < len(hist) {
+		hist = hist[:vc.At+1]
+	}
+	fails := func(p *gm.Program, h []Step) bool {
+		c, _ := failsAs(vc.Part, vc.Name, p, h, vc.Batch)
+		return c == class
+	}
+	if vc.At < 0 {
+		return vc.Part + "|" + class, vc.Prog, hist
+	}
+	minProg, minHist = shrink(vc.Prog, hist, vc.Part == "async", fails, 600)
+	if vc.Part == "gen" {
+		sig = "gen|" + bodyText(minProg, false) + "|" + histText(minHist) + "|" + class
+	} else {
+		sig = "async|" + bodyText(minProg, true) + "|" + asyncHistText(minHist, vc.Batch) + "|" + class
+	}
+	return
+}
+
+// report confirms the failing case 5 times on fresh engines, minimises it and records it. The minimisation is
+// cached per (body, class): the other histories of the same body failing the same way share the signature.
+func (w *worker) report(class string, vc *VCase) {
+	key := vc.Part + "|" + bodyClass(vc.Name) + "|" + class
+	if sig, ok := w.sigs[key]; ok {
 		w.r.Violation(sig, describe(vc), vc)
 		return
 	}
-	if w.seen == nil {
-		w.seen = map[string]bool{}
-	}
-	w.seen[sig] = true
 	for i := 0; i < 5; i++ {
-		sig2, vc2 := replayCase(vc)
-		if vc2 == nil || sig2 != sig {
-			got := "passes"
-			if vc2 != nil {
-				got = sig2
+		c2, _ := failsAs(vc.Part, vc.Name, vc.Prog, vc.History, vc.Batch)
+		if c2 != class {
+			if c2 == "" {
+				c2 = "passes"
 			}
-			w.r.Violation("flaky|"+sig, "the case does not fail identically on a fresh engine (got: "+got+")", vc)
+			w.r.Violation("flaky|"+key, "the case does not fail identically on a fresh engine (got: "+c2+")", vc)
 			return
 		}
 	}
+	sig, mp, mh := signatureOf(vc, class)
+	if w.sigs == nil {
+		w.sigs = map[string]string{}
+	}
+	w.sigs[key] = sig
+	vc.MinSrc = bodyText(mp, vc.Part == "async")
+	vc.MinHistory = mh
 	w.r.Violation(sig, describe(vc), vc)
 }
 
@@ -666,41 +727,17 @@ func describe(vc *VCase) string {
 	return s
 }
 
-// replayCase re-executes a recorded case on a fresh engine and fresh model.
-func replayCase(vc *VCase) (sig string, out *VCase) {
-	w := &worker{}
-	c := Case{Name: vc.Name, Prog: vc.Prog}
-	switch vc.Part {
-	case "gen":
-		// recompute the model's expectations for exactly this history
-		m := gm.NewGenMachine(vc.Prog)
-		h := make([]Step, len(vc.History))
-		for i, st := range vc.History {
-			at := m.Where()
-			res, lg, err := m.Step(st.Op, float64(st.V))
-			if err != nil {
-				m.Close()
-				return "", nil
-			}
-			h[i] = Step{Op: st.Op, V: st.V, Ctx: st.Ctx, Res: res, Log: append([]string{}, lg...), At: at}
-		}
-		m.Close()
-		_, out, sig = w.runGenHistory(c, vc.Prog.JS(false), h, true)
-		return sig, out
-	case "async":
-		return w.replayAsync(c, vc)
-	}
-	return "", nil
-}
-
 func replay(r *core.Run, raw json.RawMessage) {
 	var vc VCase
 	if err := json.Unmarshal(raw, &vc); err != nil {
 		r.Violation("replay|bad-case", err.Error(), nil)
 		return
 	}
-	sig, out := replayCase(&vc)
+	class, out := failsAs(vc.Part, vc.Name, vc.Prog, vc.History, vc.Batch)
 	if out != nil {
+		sig, mp, mh := signatureOf(out, class)
+		out.MinSrc = bodyText(mp, vc.Part == "async")
+		out.MinHistory = mh
 		r.Violation(sig, describe(out), out)
 	}
 }
